@@ -93,7 +93,12 @@ void vpx__ZNKSt7__cxx1119basic_ostringstreamIcSt11char_traitsIcESaIcEE3strEv(voi
   srec* r = rec_of(s);
   vstr* o = ret;
   u64 n = r->len > r->hi ? r->len : r->hi;
+#ifdef VP_LITERAL_OSTREAM
+  /* fixed-size heap buffer: keeps the dynamic object's size concrete (reads between size() and SS_CAP go undetected) */
+  if (n > 15) { o->p = malloc(SS_CAP); __CPROVER_assume(o->p != 0); o->u.cap = n; } else o->p = o->u.buf;
+#else
   if (n > 15) { o->p = malloc(n + 1); __CPROVER_assume(o->p != 0); o->u.cap = n; } else o->p = o->u.buf;
+#endif
   for (u64 i = 0; i < n; i++) o->p[i] = r->buf[i];
   o->p[n] = 0; o->len = n;
 }
@@ -135,6 +140,12 @@ void* vpx__ZStlsIcSt11char_traitsIcEERSt13basic_ostreamIT_T0_ES6_St12_Setiosflag
 static void put_int(void* s, u64 mag, int neg, int is_signed) {
 #ifdef VP_NULL_OSTREAM
   ios_of(s)->width = 0; (void)mag; (void)neg; (void)is_signed; return;
+#endif
+#ifdef VP_LITERAL_OSTREAM
+  /* models/sstream_lit.c: literal text is rendered, every number as the one placeholder digit '0' (padded to the width):
+   * all text positions stay concrete; the text length is a lower bound of the real one, so every pos > size()
+   * exception of the real code is also raised by the model */
+  (void)mag; (void)neg; (void)is_signed; put_field(s, "0", 1, 0); return;
 #endif
   iosb* b = ios_of(s);
   u32 fl = b->flags;
@@ -189,6 +200,9 @@ double rint(double); double floor(double); double fabs(double);
 static void put_double(void* s, double v) {
 #ifdef VP_NULL_OSTREAM
   ios_of(s)->width = 0; (void)v; return;
+#endif
+#ifdef VP_LITERAL_OSTREAM
+  (void)v; put_field(s, "0", 1, 0); return;
 #endif
   iosb* b = ios_of(s);
   u32 fl = b->flags;
